@@ -287,41 +287,46 @@ func (s *Stream) Close() error {
 // close the stream. after close stream, any operation will return ErrStreamClosed.
 // unread data will be drained and released.
 func (s *Stream) close() error {
-	oldState := s.getStreamState()
-	if oldState == uint32(streamClosed) {
-		return nil
+	var oldState uint32
+	for {
+		oldState = s.getStreamState()
+		if oldState == uint32(streamClosed) {
+			return nil
+		}
+		// retry when the peer's close notification moves the state to half-closed in between
+		if atomic.CompareAndSwapUint32(&s.state, oldState, uint32(streamClosed)) {
+			break
+		}
 	}
 
-	if atomic.CompareAndSwapUint32(&s.state, oldState, uint32(streamClosed)) {
-		if s.getCallbacks() != nil {
-			s.asyncGoroutineWg.Wait()
-		}
-		s.clean()
-		if oldState == uint32(streamOpened) {
-			s.safeCloseNotify()
-			callback := s.getCallbacks()
-			if callback != nil {
-				if s.session.IsClosed() {
-					callback.OnRemoteClose()
-				} else {
-					callback.OnLocalClose()
-				}
-			}
+	if s.getCallbacks() != nil {
+		s.asyncGoroutineWg.Wait()
+	}
+	s.clean()
+	if oldState == uint32(streamOpened) {
+		s.safeCloseNotify()
+		callback := s.getCallbacks()
+		if callback != nil {
 			if s.session.IsClosed() {
-				return nil
+				callback.OnRemoteClose()
+			} else {
+				callback.OnLocalClose()
 			}
-			// notify peer
-			err := s.session.sendQueue().put(queueElement{seqID: s.id, status: uint32(streamClosed)})
-			if err != nil {
-				atomic.AddUint64(&s.session.stats.queueFullErrorCount, 1)
-				// notify fallback
-				var streamCloseEvent [headerSize + 4]byte
-				header(streamCloseEvent[:]).encode(headerSize+4, s.session.communicationVersion, typeStreamClose)
-				binary.BigEndian.PutUint32(streamCloseEvent[headerSize:], s.id)
-				return s.session.waitForSend(nil, streamCloseEvent[:])
-			}
-			return s.session.wakeUpPeer()
 		}
+		if s.session.IsClosed() {
+			return nil
+		}
+		// notify peer
+		err := s.session.sendQueue().put(queueElement{seqID: s.id, status: uint32(streamClosed)})
+		if err != nil {
+			atomic.AddUint64(&s.session.stats.queueFullErrorCount, 1)
+			// notify fallback
+			var streamCloseEvent [headerSize + 4]byte
+			header(streamCloseEvent[:]).encode(headerSize+4, s.session.communicationVersion, typeStreamClose)
+			binary.BigEndian.PutUint32(streamCloseEvent[headerSize:], s.id)
+			return s.session.waitForSend(nil, streamCloseEvent[:])
+		}
+		return s.session.wakeUpPeer()
 	}
 	return nil
 }
